@@ -54,13 +54,23 @@ def main():
     ap.add_argument('--tier', default='quick')
     ap.add_argument('--verify', action='store_true')
     ap.add_argument('--checks', default='')
+    ap.add_argument('--root', default='seeded', help="'seeded' (property-breaking changes, expect exit 1) or 'benign' (property-preserving changes, expect exit 0)")
+    ap.add_argument('--related', action='store_true', help='also run every check whose anchor files include a file the patch touches')
     a = ap.parse_args()
+    global SEEDED
+    SEEDED = os.path.join(VERIF, a.root)
     names = a.names or sorted(d for d in os.listdir(SEEDED) if os.path.isdir(os.path.join(SEEDED, d)))
     results = {}
     for name in names:
         d = os.path.join(SEEDED, name)
         meta = json.load(open(os.path.join(d, 'meta.json')))
         checks = [c for c in a.checks.split(',') if c] or [meta['property']]
+        if a.related:
+            touched = set(l[6:].strip() for l in open(os.path.join(d, 'patch.diff')) if l.startswith('+++ b/'))
+            for l in open(os.path.join(VERIF, 'properties.jsonl')):
+                pr = json.loads(l)
+                if pr['id'] not in checks and touched & set(pr['anchors']['files']):
+                    checks.append(pr['id'])
         scratch = tempfile.mkdtemp(prefix='seedrun-')
         tree = os.path.join(scratch, 'repo')
         try:
